@@ -18,3 +18,6 @@ CONSTANTS
   SAMPLE = 97
   STREAMLEN = 0
   TWOCOLOURS = FALSE
+  RING = 1
+  FILTERED = TRUE
+  STOREORIENT = TRUE
